@@ -169,6 +169,23 @@ def batch(rng, budget, deep, replay=None):
                     bracket = {nm: (float(np.min(nb[nm])), float(np.max(nb[nm]))) for nm in names}
                 except Exception:
                     bracket = None
+            # the shuffled request is compared at every point, not only at the chosen one
+            if variants and variants[0][0] == 'shuffled' and not tol:
+                solS = variants[0][1]
+                for nm in names:
+                    for k_ in range(n):
+                        if not _same(solA[nm][k_], solS[nm][perm.index(k_)], 0):
+                            site = '%s:batch' % name
+                            if site not in sites:
+                                sites.add(site)
+                                res['failures'].append(dict(
+                                    site=site, detail='field %s at the same point: %r in the given order, %r in a shuffled request'
+                                                      % (nm, solA[nm][k_], solS[nm][perm.index(k_)]),
+                                    case=dict(cls=path, kind='shuffled', t=t, point=A[k_].tolist() if e.dim > 1 else float(A[k_]))))
+                            break
+                    else:
+                        continue
+                    break
             for kind, sol, j in variants:
                 if j is None:
                     x = A[i]
@@ -292,16 +309,23 @@ def two_instances(rng, budget, deep, replay=None):
             name = path.split(':')[1]
             if replay is not None and replay.get('cls') != path:
                 continue
-            if e.unconstructible or e.grid or (e.slow and not deep) or name in ('Hutchens2', 'Rectangle', 'PlanarCog14'):
+            # the general-EOS Riemann wrapper is slow (2 s a solve) but keeps a problem object: always in
+            if e.unconstructible or e.grid or (e.slow and not deep and name != 'GenEOS_Solver') \
+                    or name in ('Hutchens2', 'Rectangle', 'PlanarCog14'):
                 continue
             try:
                 args = e.args() if e.args else ()
                 kw = e.kwargs(rng)
-                kw2 = catalog.variant_kwargs(path, c, rng, kw)
+                kw2 = catalog.variant_kwargs(path, c, rng, kw) if name != 'GenEOS_Solver' else None
                 a = c(*args, **kw)
                 n = max(e.min_n, 3)
                 P, Q = e.points(rng, n), e.points(rng, n + 1)
                 t = e.t(rng)
+                stored = {k_: (id(v_), v_.copy()) for k_, v_ in vars(a).items() if isinstance(v_, np.ndarray)}
+                try:
+                    a(Q, e.t(rng))                # the very first request is at another time
+                except Exception:
+                    pass
                 r1 = a(P, t)
                 if kw2 is not None:
                     b = c(*(e.args() if e.args else ()), **kw2)
@@ -320,6 +344,15 @@ def two_instances(rng, budget, deep, replay=None):
             res['distinct_nontrivial'] += 1
             if not res['samples']:
                 res['samples'].append(dict(cls=path, kwargs2=repr(kw2)[:120], t=t))
+            # a call must not modify in place an array the object held before the call
+            for k_, (i_, v_) in stored.items():
+                w_ = vars(a).get(k_)
+                if isinstance(w_, np.ndarray) and id(w_) == i_ and (w_.shape != v_.shape or not np.array_equal(w_, v_, equal_nan=True)):
+                    site = '%s:stored-array-modified' % name
+                    if site not in sites:
+                        sites.add(site)
+                        res['failures'].append(dict(site=site, detail='attribute %s was modified in place by a call' % k_,
+                                                    case=dict(cls=path, t=t)))
             tol = GRID_TOL.get(name, 0)
             for kind, x, y in (('other-instance', r1, r2), ('used-object', rq, rq0)):
                 for nm in x.dtype.names:
